@@ -195,7 +195,7 @@ class C09(P.Property):
         run.sim.loop.max_time = 100000.0  # idle periods of up to 4000 s per search are part of the plans
         out = dict(obs=[], probes={}, cover={})
         try:
-            with world.Watchdog(120):
+            with world.Watchdog(900 if "__huge__" in knobs["db"] else 180):
                 try:
                     run.sim.run(self._driver(run, plan, out, res.violations))
                 except (core.SimLimit, core.SimDeadlock) as e:
